@@ -33,9 +33,13 @@ structure Cfg where
   /-- `add_scenarios` / `load_scenarios`: a scenario dictionary without an own `constants` / `points` block
   gets a fresh dictionary (true), or the manager's `base_constants` / `base_points` object itself (false) -/
   scenarioOwnsDicts : Bool
+  /-- `SimulationScenario.__init__` / `configure_settings`: a run-spec override is taken over iff its KEY is present
+  (true), or iff its value is truthy (false: `runspecs.get(key) or self.key` — `starttime: 0` is ignored) -/
+  overrideByPresence : Bool := true
 deriving DecidableEq, Repr
 
-def Cfg.good (c : Cfg) : Bool := c.runspecStartApplied && c.fileRunspecsKept && c.scenarioOwnsDicts
+def Cfg.good (c : Cfg) : Bool :=
+  c.runspecStartApplied && c.fileRunspecsKept && c.scenarioOwnsDicts && c.overrideByPresence
 
 /-- scenario-level settings -/
 structure Settings where
@@ -66,6 +70,27 @@ def resolveFile (c : Cfg) (mrs : RunSpec) (files : List FileEntry) (d : Dict) : 
 /-- session settings and REST settings on an existing scenario -/
 def resolveSettings (s : Settings) (d : Dict) : Settings :=
   { consts := Store.update s.consts d.consts, pts := Store.update s.pts d.pts, rs := s.rs.override d }
+
+/-- how the scenario object takes over run specs from a dictionary (mechanism fact `overrideByPresence`) -/
+def truthyOr (o : Option Nat) (cur : Nat) : Nat :=
+  match o with
+  | some v => if v = 0 then cur else v
+  | none => cur
+
+def rsOver (c : Cfg) (r : RunSpec) (d : Dict) : RunSpec :=
+  if c.overrideByPresence then r.override d
+  else { start := truthyOr d.start r.start, stop := truthyOr d.stop r.stop, dt := truthyOr d.dt r.dt }
+
+/-- the channels as the code runs them (run specs through `rsOver`); `resolveDict` / `resolveFile` /
+`resolveSettings` are what the statement demands (an override counts when its key is present) -/
+def resolveDictC (c : Cfg) (mrs : RunSpec) (bc bp : Store) (d : Dict) : Settings :=
+  { resolveDict mrs bc bp d with rs := rsOver c mrs d }
+
+def resolveFileC (c : Cfg) (mrs : RunSpec) (files : List FileEntry) (d : Dict) : Settings :=
+  { resolveFile c mrs files d with rs := if c.fileRunspecsKept then rsOver c mrs d else mrs }
+
+def resolveSettingsC (c : Cfg) (s : Settings) (d : Dict) : Settings :=
+  { resolveSettings s d with rs := rsOver c s.rs d }
 
 /-- the model object that is simulated: constant overrides, points table, run specs -/
 structure ModelSt where
